@@ -71,6 +71,7 @@ Definition map_wire (cf : mcfg) (o : mop) : list (list string) :=
              if (0 <? mc_mttl cf)%Z then millis (mc_mttl cf) else "0"; if is_ephemeral cf then "1" else "0"]]
   | MClear ch => [["del"; k_stream ch; k_meta ch; k_state ch; k_order ch; k_expire ch; k_smeta ch]; ["zrem"; k_cleanup; ch]]
   | MTick _ => []
+  | MCleanup _ _ => []     (* the cleanup cycle's commands depend on the replies: not compared (the driver logs none) *)
   end.
 
 Record case := mkCase {
@@ -84,7 +85,7 @@ Record case := mkCase {
 Fixpoint rm_run_st (SC : mscripts) (cf : mcfg) (st : rstate) (ops : list mop) : rstate * list mres :=
   match ops with
   | [] => (st, [])
-  | o :: r => let '(st', ob) := rm_step SC cf st o in
+  | o :: r => let '(st', ob) := rm_step2 SC map_cinterp cf st o in     (* cleanup scripts: always interpreted *)
               let '(st'', obs) := rm_run_st SC cf st' r in (st'', ob :: obs)
   end.
 
